@@ -82,18 +82,33 @@ fn verdict_bits(bits: u32) -> Verdict {
 pub fn gen_pipeline(raw: &Raw, o: &PipeOpts) -> Scenario {
     let mut b = ScnB::new();
     let mut cap = o.caps[pick(knob(raw, 0), o.caps.len())];
-    let policy = o.pols[pick(knob(raw, 1), o.pols.len())];
+    let mut policy = o.pols[pick(knob(raw, 1), o.pols.len())];
     let ctor = CTORS[pick(knob(raw, 2), 3)].clone();
     let use_mw_dispatch = o.mw_dispatch && knob(raw, 8) % 3 == 0;
     if use_mw_dispatch && policy == Pol::Block {
         cap = 512; // a reducer-context dispatch into a full blocking queue is a self-deadlock (C13 excludes it)
     }
-    let s = b.store(o.name, cap, policy, ctor);
-    let nred = range(knob(raw, 3), o.reducers);
+    // half of the `Simple` cases take the shape the convenience constructors can express
+    // (`StoreImpl::new`, `new_with_reducer`, `new_with_name`: defaults for everything else), so
+    // that those entry points are really used; reducers / middlewares may still arrive at run time
+    let simple_shape = matches!(ctor, Ctor::Simple) && !use_mw_dispatch && o.pols.contains(&Pol::Block) && o.reducers.0 <= 1 && o.mws.0 == 0 && knob(raw, 2) % 2 == 0;
+    let mut name = o.name;
+    if simple_shape {
+        cap = 16;
+        policy = Pol::Block;
+        if knob(raw, 3) % 2 == 0 {
+            name = "store";
+        }
+    }
+    let s = b.store(name, cap, policy, ctor);
+    let nred = {
+        let n = range(knob(raw, 3), o.reducers);
+        if simple_shape { n.min(1) } else { n }
+    };
     let mut reds: Vec<CompId> = (0..nred).map(|_| b.reducer(s)).collect();
     let nmw = {
         let n = range(knob(raw, 4), o.mws);
-        if use_mw_dispatch { n.max(1) } else { n }
+        if simple_shape { 0 } else if use_mw_dispatch { n.max(1) } else { n }
     };
     let mut mws: Vec<CompId> = (0..nmw).map(|_| b.middleware(s)).collect();
     if o.callback_reads {
@@ -101,7 +116,9 @@ pub fn gen_pipeline(raw: &Raw, o: &PipeOpts) -> Scenario {
             b.comp_mut(m).reads_state = true;
         }
     }
-    let nsub = range(knob(raw, 5), o.prelude_subs);
+    // a store without reducers and middlewares has no callback except its subscribers': keep one
+    // observer, or nothing the pipeline does with an action would be visible in the log
+    let nsub = range(knob(raw, 5), o.prelude_subs).max(if nred == 0 && nmw == 0 { 1 } else { 0 });
     let mut all_subs: Vec<SubId> = vec![];
     for i in 0..nsub {
         let sub = b.sub(SubKind::Direct);
@@ -109,10 +126,14 @@ pub fn gen_pipeline(raw: &Raw, o: &PipeOpts) -> Scenario {
             b.sub_mut(sub).reads_state = true;
         }
         b.s.prelude.push(Op::Subscribe { store: s, sub });
+        if i == 0 && nred == 0 && nmw == 0 {
+            continue; // the observer: nobody unsubscribes it
+        }
         all_subs.push(sub);
     }
     let racing_stop = o.racing_stop && knob(raw, 6) % 3 == 0;
     let mut added = 0;
+    let mut acts: Vec<ActId> = vec![];
     let mut threads: Vec<&Vec<RawOp>> = raw.threads.iter().collect();
     let empty = vec![];
     while threads.len() < o.min_threads {
@@ -150,6 +171,7 @@ pub fn gen_pipeline(raw: &Raw, o: &PipeOpts) -> Scenario {
                         let c = reds[pick(r.a, reds.len())];
                         b.act_mut(a).red_stall.push((c, stall_of(r.b)));
                     }
+                    acts.push(a);
                     Op::Dispatch { act: a, via: via_of(r) }
                 }
                 20 | 21 if o.readers => Op::GetState { store: s },
@@ -189,6 +211,14 @@ pub fn gen_pipeline(raw: &Raw, o: &PipeOpts) -> Scenario {
             let at = pick(knob(raw, 7), b.s.threads[th].len() + 1);
             b.s.threads[th].insert(at, Op::Stop { store: s, via_trait: knob(raw, 10) % 2 == 1 });
         }
+    }
+    // a quarter of the cases with unsubscriptions: one subscriber removes another one (or itself)
+    // from inside its callback, i.e. while the notification round it belongs to is under way
+    if o.unsubs && knob(raw, 11) % 4 == 0 && !all_subs.is_empty() && !acts.is_empty() {
+        let host = all_subs[pick(knob(raw, 12), all_subs.len())];
+        let victim = all_subs[pick(knob(raw, 13), all_subs.len())];
+        let trigger = acts[pick(knob(raw, 14), acts.len())];
+        b.sub_mut(host).on_notify_ops.push((trigger, vec![Op::Unsubscribe { store: s, sub: victim }]));
     }
     b.s.epilogue.push(Op::Stop { store: s, via_trait: false });
     b.s.epilogue.push(Op::GetState { store: s });
